@@ -97,6 +97,18 @@ CHECKS = {
         "record of a block. bandpass()/fold() excluded. One file size (12 x 8).",
         "DESIGN.md section 3 C08",
     ),
+    "C09": (
+        "exploration",
+        "exhaustive enumeration of bands x DMs x references x entry points on labelled data; exact-rational delay law",
+        "Part 1: the delay table for 4 bands x 3 sampling times x 11 DMs of both signs x 5 reference choices is checked for zero at the "
+        "reference channel, antisymmetry, monotonicity and distance <= 0.5+1e-3(1+|d|) samples from the dispersion law evaluated in exact "
+        "rationals. Part 2: block rotation, its valid-samples variant (4 references), streamed dedispersion (5 gulps), read_dedisp_block "
+        "(every in-range start/nsamps, out-of-range must raise), every row of dmt_transform (full/valid, 1/3/5 steps, 2 references), pulse "
+        "restoration and the DM/-DM identity are compared exactly with x[c,t+d_c] on unique labels, for every DM of a both-sign set per band.",
+        "Part 2 trusts the library's own delay table (checked by part 1). For negative delays the valid outputs are accepted with their time "
+        "origin advanced by -min(d). One block length (24).",
+        "DESIGN.md section 3 C09",
+    ),
 }
 
 ENGINES = [
